@@ -120,7 +120,7 @@ PROPS["C01"] = dict(
           "(FNV-1a over operation, outcome, returned values and the observable state of all three strings after every step)."),
     probes=["reached_len_N", "op_at_len_N", "iterator_insert_at_end", "iterator_replace_empty_range", "search_with_defaulted_position",
             "strlen_layout_op_with_stale_bytes", "N255_default_constructed", "stream_short_reads", "stream_early_eof_reached",
-            "stream_underflow_threw", "stream_sink_refused", "aliasing_op", "strlen_layout_resize_grow", "single_pass_input_range", "bad_position_under_C01", "random_access_range_that_is_not_contiguous", "own_terminator_as_source_character", "generated_range_of_more_than_2^32_elements", "aliasing_source_runs_on_into_the_callers_record"],
+            "stream_underflow_threw", "stream_sink_refused", "aliasing_op", "strlen_layout_resize_grow", "single_pass_input_range", "bad_position_under_C01", "random_access_range_that_is_not_contiguous", "own_terminator_as_source_character"],
     components=_FS_COMPONENTS, assumptions=_FS_ASSUME,
 )
 PROPS["C02"] = dict(
@@ -135,7 +135,7 @@ PROPS["C02"] = dict(
           "Before each call the std::basic_string model predicts out_of_range / length_error / success; the exception type must match and after an exception every string must equal its model (unchanged). "
           "Canary-filled, ASan-poisoned red zones surround every object; pointer and range arguments live in exact-size heap blocks. "
           "Non-trivial: at least two state-changing steps (a rejected call counts). Distinct: distinct run digests."),
-    probes=["length_error_observed", "out_of_range_observed", "exception_at_len_N", "exception_at_len_N-1", "op_at_len_N", "huge_absolute_count"],
+    probes=["length_error_observed", "out_of_range_observed", "exception_at_len_N", "exception_at_len_N-1", "op_at_len_N", "huge_absolute_count", "generated_range_of_more_than_2^32_elements", "aliasing_source_runs_on_into_the_callers_record"],
     components=_FS_COMPONENTS, assumptions=_FS_ASSUME + ["when a bad position and an over-long result apply to the same call either exception is accepted"],
 )
 PROPS["C14"] = dict(
